@@ -1,6 +1,7 @@
 import OrsoVerif.Model.PyVal
 import OrsoVerif.Model.Estimators
 import OrsoVerif.Model.ProfileEst
+import OrsoVerif.Model.HistObj
 import OrsoVerif.Drv.C13
 /-! Driver glue for C14: evaluate `count_at`, `quantile` and the profile estimators of the model on
 a histogram state given by the harness (the implementation's own bins and bounds). -/
@@ -80,6 +81,67 @@ def pseq (c : Codec K) : List PyVal → Option (List PyVal)
     pure [.list outs]
   | _ => none
 
+/-- One step of a sequence on histogram *objects* (`Model/HistObj.lean`): `["new", r, cap]`, `["upd", r, value, count]`,
+`["add", dst, a, b]` (`dst = a + b`, in place or on a copy as the source says now), `["q", r, points, levels]` — the
+estimators on the object register `r` names, answered from the model's own state. -/
+def hseqStep (c : Codec K) (floor : K → K) (s : ObjHeap K) : PyVal → Option (ObjHeap K × PyVal)
+  | .list [.str "new", .int r, .int cap] =>
+    if r < 0 || cap < 0 then none else some (s.new r.toNat cap.toNat, okOut)
+  | .list [.str "upd", .int r, v, cnt] => do
+    let v ← c.dec v
+    let cnt ← c.dec cnt
+    match ← s.upd r.toNat v cnt with
+    | .error e => pure (s, errOut e)
+    | .ok s' => pure (s', okOut)
+  | .list [.str "add", .int dst, .int a, .int b] => do
+    match ← s.add Gen.DistogramObj.addTarget dst.toNat a.toNat b.toNat with
+    | .error e => pure (s, errOut e)
+    | .ok s' => pure (s', okOut)
+  | .list [.str "bulkp", .int r, .list pairs, lo, hi] => do
+    -- `bulkload` below the direct-insert threshold: numpy's (value, count) pairs and the data's extremes
+    let (o, h) ← s.get r.toNat
+    let pairs ← decPairs c pairs
+    let lo ← c.dec lo
+    let hi ← c.dec hi
+    match bulk h pairs lo hi with
+    | .error e => pure (s, errOut e)
+    | .ok h' => pure (s.put o h', okOut)
+  | .list [.str "bulkh", .int r, .list edges, .list counts, lo, hi] => do
+    -- above it: numpy's histogram edges and counts; the midpoints are the model's
+    let (o, h) ← s.get r.toNat
+    let edges ← edges.mapM c.dec
+    let counts ← counts.mapM c.dec
+    let lo ← c.dec lo
+    let hi ← c.dec hi
+    if edges.length ≠ counts.length + 1 then none
+    match bulk h ((midpoints edges).zip counts) lo hi with
+    | .error e => pure (s, errOut e)
+    | .ok h' => pure (s.put o h', okOut)
+  | .list [.str "dl", .int dst, .int src] => do
+    -- `load(**h.dump())`: a new object with the same bins and bounds; `dump()` of an empty histogram raises (`zip(*[])`)
+    let (_, h) ← s.get src.toNat
+    if h.bins.isEmpty then pure (s, errOut "ValueError") else
+    pure (({ s with next := s.next + 1 }.put s.next (load h.bins h.min h.max)).name dst.toNat s.next, okOut)
+  | .list [.str "q", .int r, .list xs, .list qs] => do
+    let (_, h) ← s.get r.toNat
+    let xs ← xs.mapM c.dec
+    let qs ← qs.mapM c.dec
+    pure (s, .list [.str "q", .list (xs.map fun x => encOpt c (countAt h.bins h.min h.max x)),
+                    .list (qs.map fun q => encOpt c (quantile floor h.bins h.min h.max q)),
+                    encOpt c h.min, encOpt c h.max, c.enc (sumCounts h.bins)])
+  | _ => none
+
+def runHseq (c : Codec K) (floor : K → K) : ObjHeap K → List PyVal → Option (List PyVal)
+  | _, [] => some []
+  | s, op :: ops => do
+    let (s', out) ← hseqStep c floor s op
+    let rest ← runHseq c floor s' ops
+    pure (out :: rest)
+
+def hseq (c : Codec K) (floor : K → K) : List PyVal → Option (List PyVal)
+  | [.list ops] => (runHseq c floor ObjHeap.empty ops).map fun o => [.list o]
+  | _ => none
+
 end
 
 def handle (op : String) (args : List PyVal) : Option (List PyVal) :=
@@ -88,6 +150,8 @@ def handle (op : String) (args : List PyVal) : Option (List PyVal) :=
   | "eval", .str "q" :: rest => eval ratCodec (fun x => (x.floor : Rat)) rest
   | "pseq", .str "f" :: rest => pseq floatCodec rest
   | "pseq", .str "q" :: rest => pseq ratCodec rest
+  | "hseq", .str "f" :: rest => hseq floatCodec Float.floor rest
+  | "hseq", .str "q" :: rest => hseq ratCodec (fun x => (x.floor : Rat)) rest
   | _, _ => none
 
 end Drv.C14
